@@ -316,6 +316,29 @@ int main(int argc, char **argv)
 					for (size_t j = cut; j < n; j++) s[w++] = A64[vh_below(&r, 64)];
 					check_dec(s, w);
 				}
+		/* runs: N foreign bytes in one text (a decoder that counts instead of stopping must not wrap its counter), alone, after alphabet
+		 * text, and spread one per line as in MIME-wrapped base64 (N lines of 64 or 76 alphabet characters, each ending in a line feed) */
+		{
+			static const int RUN[] = { 2, 3, 255, 256, 257, 511, 512, 513, 768, 1024, 4096, 65535, 65536, 65537 };
+			static const char FC[] = { '!', '*', '\n', ' ', '%', '\x80', '.', ':' };
+			static char big[70000 * 78 / 10];	/* up to 65537 foreign bytes, or 4096 lines of 77 */
+			for (size_t ri = 0; ri < sizeof(RUN) / sizeof(RUN[0]); ri++)
+				for (size_t ci = 0; ci < sizeof(FC); ci++)
+					for (int shape = 0; shape < 4; shape++, idx++) {
+						size_t w = 0, N = (size_t)RUN[ri];
+						if (!vh_mine(&a, idx)) continue;
+						if (shape >= 2 && N > 4096) continue;
+						vh_rng_seed(&r, a.seed, 9000 + (uint64_t)idx);
+						if ((idx & 0x3f) == 0) vh_case_begin(idx, "\"mode\":\"dict-run\",\"n\":%zu,\"shape\":%d", N, shape);
+						if (shape == 1) for (int j = 0; j < 8; j++) big[w++] = A64[vh_below(&r, 64)];
+						if (shape <= 1) { memset(big + w, FC[ci], N); w += N; }
+						else {
+							size_t ll = shape == 2 ? 64 : 76;
+							for (size_t l = 0; l < N; l++) { for (size_t j = 0; j < ll; j++) big[w++] = A64[vh_below(&r, 64)]; big[w++] = FC[ci]; }
+						}
+						check_dec(big, w);
+					}
+		}
 	} else if (!strcmp(a.mode, "cold")) {
 		/* the process's very first encodes/decodes, made by several threads at once (tables built on first use must not be
 		 * visible half-built): every result is compared with the reference codec */
